@@ -95,31 +95,6 @@ theorem c04_history_raw (cfg : Cfg) (mode : CbMode) (le : String → String → 
   obtain ⟨o, ho, rfl⟩ := List.mem_map.mp he
   exact Parse.RawOp.ev_wf cfg o (h o ho)
 
-/-- **c04_history_text** — the run-time judge reads every message in the property text's reading of its location
-    (`Parse.textReading`).  Whenever that reading agrees with the code's on every message of a history the judge accepts the
-    model's trace; the hypothesis fails exactly on the inputs of the open findings F03a / F04a. -/
-theorem c04_history_text (cfg : Cfg) (mode : CbMode) (le : String → String → Bool) (ops : List Parse.RawOp)
-    (h : ∀ o ∈ ops, o.decoded cfg) (hagree : ∀ o ∈ ops, Parse.textReading (o.ev cfg) = o.ev cfg) :
-    ok Parse.ipVersion (Parse.skipHdr cfg) "_source" mode
-      ((traceOf Parse.ipVersion (Parse.skipHdr cfg) "_source" mode le {} (ops.map (Parse.RawOp.ev cfg))).map
-        fun x => (Parse.textReading x.1, x.2)) = true := by
-  have hid : ∀ (s : Tracker String) (evs : List (Ev String)), (∀ e ∈ evs, Parse.textReading e = e) →
-      (traceOf Parse.ipVersion (Parse.skipHdr cfg) "_source" mode le s evs).map (fun x => (Parse.textReading x.1, x.2)) =
-      traceOf Parse.ipVersion (Parse.skipHdr cfg) "_source" mode le s evs := by
-    intro s evs
-    induction evs generalizing s with
-    | nil => intro _; rfl
-    | cons e r ih =>
-      intro hh
-      simp only [traceOf, List.map_cons, hh e List.mem_cons_self]
-      congr 1
-      exact ih _ (fun x hx => hh x (List.mem_cons_of_mem _ hx))
-  rw [hid _ _ (by
-    intro e he
-    obtain ⟨o, ho, rfl⟩ := List.mem_map.mp he
-    exact hagree o ho)]
-  exact c04_history_raw cfg mode le ops h
-
 /-- **same_headers_differ_spec** — the early-exit loop over the two case maps answers `True` exactly when some
     header of the stored map, not private (`_…`) and not volatile, is present in the new map with a different value. -/
 theorem same_headers_differ_spec (cur new : Hdrs σ) :
